@@ -161,3 +161,54 @@ where
     }
     true
 }
+
+/// For iterators that are `Clone`: a clone taken after j `next()` calls continues with
+/// exactly the items the original still has, and taking it does not disturb the original.
+pub fn check_clone<I, T, K>(ctx: &mut Ctx, what: &str, mk: &dyn Fn() -> I, key: &dyn Fn(T) -> K, cap: usize) -> bool
+where
+    I: Iterator<Item = T> + Clone,
+    K: PartialEq + core::fmt::Debug,
+{
+    let reference = catch(|| mk().take(cap + 1).map(|x| key(x)).collect::<Vec<K>>());
+    let reference = match reference {
+        Out::Val(v) if v.len() <= cap => v,
+        _ => return true,
+    };
+    let n = reference.len();
+    let mut js = vec![0usize, 1, n / 2, n];
+    js.sort_unstable();
+    js.dedup();
+    for j in js {
+        if j > n {
+            continue;
+        }
+        let r = catch(|| {
+            let mut it = mk();
+            for _ in 0..j {
+                it.next();
+            }
+            let c = it.clone();
+            let from_clone: Vec<K> = c.map(|x| key(x)).collect();
+            let from_orig: Vec<K> = it.map(|x| key(x)).collect();
+            (from_clone, from_orig)
+        });
+        match r {
+            Out::Val((a, b)) if a[..] == reference[j..] && b[..] == reference[j..] => {}
+            o => {
+                ctx.violation(
+                    &format!("{}:iter-protocol:clone", what),
+                    J::obj(vec![("what", J::s(format!(
+                        "clone after {} next() of an iterator with {} items: (clone, original) yield {:?} items, expected {} each, in the same order",
+                        j,
+                        n,
+                        o.val().map(|(a, b)| (a.len(), b.len())),
+                        n - j
+                    )))]),
+                );
+                return false;
+            }
+        }
+    }
+    ctx.count("iter-protocol:clone-checked");
+    true
+}
